@@ -1108,6 +1108,20 @@ impl Sim {
                 let e = self.server.world_mut().spawn(ConnectedClient { max_size: max }).id();
                 self.known_auth.remove(&c);
                 self.server.world_mut().resource_mut::<ClientEnts>().0[c] = Some(e);
+                // `connect c max slow`: the backend reports Connecting for one client frame first (invisible to the model:
+                // a frame of a connecting client does nothing observable); only when no client-side operation is pending
+                if t.get(3) == Some(&"slow") && self.clients[c].app.world().resource::<PendingCops>().0.is_empty() {
+                    self.clients[c].app.world_mut().resource_mut::<RepliconClient>().set_status(RepliconClientStatus::Connecting);
+                    if catch_unwind(AssertUnwindSafe(|| self.clients[c].app.update())).is_err() {
+                        self.dead = Some(format!("client {c}"));
+                        out.push(format!("PANIC client {c}"));
+                        return;
+                    }
+                    let n = self.clients[c].app.world_mut().resource_mut::<RepliconClient>().drain_sent().count();
+                    if n != 0 {
+                        out.push(format!("sent-while-connecting {c} {n}"));
+                    }
+                }
                 self.clients[c].app.world_mut().resource_mut::<RepliconClient>().set_status(RepliconClientStatus::Connected);
             }
             "authorize" => {
